@@ -24,6 +24,12 @@ fn nal_body(r: &mut Rng, len: usize, zeros: bool) -> Vec<u8> {
             *b = 0x80 | (*b & 0x7f) | 4;
         }
     }
+    if len >= 4 && r.chance(1, 25) {
+        // bytes that spell one of the container's own box names
+        let p = r.usize_below(len - 3);
+        let f = *r.pick(&crate::gen::hist::FOURCCS[..]);
+        v[p..p + 4].copy_from_slice(f.as_bytes());
+    }
     if zeros && len > 4 && r.chance(1, 3) {
         let p = r.usize_below(len - 2);
         v[p] = 0;
@@ -146,7 +152,27 @@ pub fn h264_frame(r: &mut Rng, kind: FrameKind, body_len: usize, decorate: bool)
             nals.push(mk(r, hdr, body_len));
         }
     }
+    odd_layouts(r, &mut nals, kind, decorate, 0x0c);
     join_nals(r, &nals, decorate)
+}
+
+/// Layouts no encoder emits but the contract admits ("any number/order/length of parameter-set
+/// and slice NAL units"): parameter sets after the first slice, and one-byte NAL units.
+fn odd_layouts(r: &mut Rng, nals: &mut Vec<Vec<u8>>, kind: FrameKind, decorate: bool, one_byte: u8) {
+    if !decorate {
+        return;
+    }
+    if kind == FrameKind::KeyCfg && r.chance(1, 10) {
+        match r.below(3) {
+            0 => nals.rotate_right(1), // the (last) slice first, parameter sets after it
+            1 => nals.reverse(),
+            _ => r.shuffle(nals),
+        }
+    }
+    if r.chance(1, 12) {
+        let at = r.usize_below(nals.len() + 1);
+        nals.insert(at, vec![one_byte]);
+    }
 }
 
 pub fn h265_frame(r: &mut Rng, kind: FrameKind, body_len: usize, decorate: bool) -> Vec<u8> {
@@ -208,6 +234,7 @@ pub fn h265_frame(r: &mut Rng, kind: FrameKind, body_len: usize, decorate: bool)
             nals.push(mk(r, t, body_len));
         }
     }
+    odd_layouts(r, &mut nals, kind, decorate, 0x50);
     join_nals(r, &nals, decorate)
 }
 
@@ -283,6 +310,10 @@ pub fn adts_frame(r: &mut Rng, payload_len: usize, trailing: usize) -> (Vec<u8>,
         None => (r.below(4) as u8, r.below(13) as u8, r.range(1, 7) as u8, r.chance(3, 4)),
     };
     let mut f = build_adts(profile, sfi, ch, pa, &payload, None, 0, 0);
+    if r.chance(1, 2) {
+        let x = r.next_u64();
+        crate::model::basic::scramble_adts_free_bits(&mut f, x);
+    }
     if trailing > 0 {
         f.extend_from_slice(&r.bytes(trailing));
     }
